@@ -311,6 +311,12 @@ class DecimalDomain:
         if n == "to_digit" and len(a) == 2 and a[0] == ("char",):
             self.radix.append(a[1])
             return Adt("core::option::Option", ("?", ("digit?",), {0: "None", 1: "Some"}), [("digit",)])
+        if a and a[0] == ("digit",) and len(a) == 1 and n in ("from", "into"):
+            return ("digit",)
+        if a and a[0] == ("digit",) and len(a) == 1 and n in ("try_from", "try_into"):
+            return Adt("core::result::Result", "Ok", [("digit",)])
+        if n in ("unwrap", "expect", "unwrap_or_default") and a and isinstance(a[0], Adt) and a[0].variant in ("Some", "Ok") and a[0].fields:
+            return a[0].fields[0]
         if n == "branch" and fk.get("trait") == "core::ops::Try" and len(a) == 1 and isinstance(a[0], Adt) and a[0].name == "core::option::Option":
             v = a[0]
             if isinstance(v.variant, tuple):
